@@ -65,27 +65,26 @@ Init == hist = <<>>
 Can == Len(hist) < MaxOps
 \* a transaction with id m claims sender `claimed` (from field in form ff) and carries signature sg
 Submit(claimed, ff, m, sg) ==
-  /\ Can
   /\ hist' = Append(hist, Rec("submit", claimed, ff, m, sg, "", 32,
                               IF ~Parses(sg) THEN "reject-parse" ELSE IF Accepts(claimed, ff, m, sg) THEN "accept" ELSE "reject",
                               Definite(sg) \/ ~Accepts(claimed, ff, m, sg)))
 \* crypto.NewSignature(hash, key) then RecoverPublicKey(hash') and Verify(hash', pub)
 RecoverOp(sg, m, hlen) ==
-  /\ Can /\ Parses(sg) /\ sg.len # 0
+  /\ Parses(sg) /\ sg.len # 0
   /\ hist' = Append(hist, Rec("recover", "", "addr", m, sg, "", hlen, Recover(sg, m, hlen), Definite(sg)))
 VerifyOp(sg, m, k, hlen) ==
-  /\ Can /\ Parses(sg) /\ sg.len # 0
+  /\ Parses(sg) /\ sg.len # 0
   /\ hist' = Append(hist, Rec("verify", "", "addr", m, sg, k, hlen, VerifyWith(sg, m, k, hlen), Definite(sg)))
 \* serialization round trips of an untouched signature: [R|S|V], [V|R|S], [R|S] (loses V)
 RoundTrip(k, m, fmt) ==
-  /\ Can
   /\ hist' = Append(hist, Rec("roundtrip", "", "addr", m, Sig(k, m, "ok", "ok", "ok", IF fmt = "rs" THEN 64 ELSE 65), fmt, 32,
                               IF fmt = "rs" THEN "error" ELSE k, TRUE))       \* res: what Recover yields afterwards
 
-Next == \/ \E c \in Keys, ff \in FromForms, m \in Msgs, sg \in Sigs : Submit(c, ff, m, sg)
-        \/ \E sg \in Sigs, m \in Msgs, h \in HashLens : RecoverOp(sg, m, h)
-        \/ \E sg \in Sigs, m \in Msgs, k \in Keys, h \in HashLens : VerifyOp(sg, m, k, h)
-        \/ \E k \in Keys, m \in Msgs, f \in {"rsv", "vrs", "rs"} : RoundTrip(k, m, f)
+\* (the bound is tested before the arguments are enumerated)
+Next == \/ Can /\ \E c \in Keys, ff \in FromForms, m \in Msgs, sg \in Sigs : Submit(c, ff, m, sg)
+        \/ Can /\ \E sg \in Sigs, m \in Msgs, h \in HashLens : RecoverOp(sg, m, h)
+        \/ Can /\ \E sg \in Sigs, m \in Msgs, k \in Keys, h \in HashLens : VerifyOp(sg, m, k, h)
+        \/ Can /\ \E k \in Keys, m \in Msgs, f \in {"rsv", "vrs", "rs"} : RoundTrip(k, m, f)
 Spec == Init /\ [][Next]_vars
 
 ----------------------------------------------------------------------------
